@@ -377,6 +377,25 @@ def check_c14(out, tier):
             c = with_cfg(c, decimals=rnd.choice([1, 2, 2, 3]), report=rnd.choice(["mixed", "ratio"]), comments=True)
         items.append({"id": c["id"], "rel": "inverse", "a": with_cfg(c, inverse=True), "b": with_cfg(c, inverse=False),
                       "c": with_cfg(with_graph(c, R), inverse=False)})
+    # nodes that are only ever objects, selected one by one together with nodes that have outgoing triples: what is known about a
+    # sink node is its incoming links
+    for i in range(24 * k):
+        T = gen.general_graph(rnd, bnodes=False, max_nodes=6, rich_literals=False, hierarchy=False)
+        subs = {s_ for s_, _p, _o in T}
+        sinks = sorted({o_ for _s, p_, o_ in T if o_[0] == "IRI" and p_ != M.RDF_TYPE and o_ not in subs})
+        if not sinks:
+            continue
+        picked = rnd.sample(sinks, rnd.randint(1, min(2, len(sinks)))) + rnd.sample(sorted(subs), rnd.randint(0, min(2, len(subs))))
+        sm = [{"label": M.EX + "shapes/L%d" % (j % 2), "labelSpelling": "bracket", "spelling": "bracket", "kind": "node", "node": list(x)}
+              for j, x in enumerate(picked)]
+        c = gen.case("c14k%d" % i, T, **gen.switches(rnd, ors=rnd.random() < .3))
+        c = with_cfg(c, mode="shapemap", items=sm, targets=[], nsDict=gen.NSDICT)
+        R = sorted(set(reverse_graph(T)), key=str)
+        rnd.shuffle(R)
+        if len(R) != len(T):
+            continue
+        items.append({"id": c["id"], "rel": "inverse", "a": with_cfg(c, inverse=True), "b": with_cfg(c, inverse=False),
+                      "c": with_cfg(with_graph(c, R), inverse=False)})
     # incoming links of one property from subjects of several classes with very different frequencies, thresholds between them
     for i in range(30 * k):
         T = gen.sources_graph(rnd)
